@@ -108,9 +108,14 @@ impl BuildOptimiser {
     }
 
     pub fn build(&self) -> MCOptimiser {
+        // The temperature is reduced once at the end of each inner loop
+        let inner_steps = u64::max(u64::min(self.inner_steps, self.steps), 1);
+        let loops = u64::max(self.steps / inner_steps, 1);
         let kt_ratio = match (self.kt_ratio, self.kt_finish) {
             (Some(ratio), _) => 1. - ratio,
-            (None, Some(finish)) => f64::powf(finish / self.kt_start, 1. / self.steps as f64),
+            // There is no cooling from a temperature of zero, it remains zero
+            (None, Some(_)) if !(self.kt_start > 0.) => 1.,
+            (None, Some(finish)) => f64::powf(finish / self.kt_start, 1. / loops as f64),
             (None, None) => 0.1,
         };
         debug!("Setting kt_ratio to: {}", kt_ratio);
@@ -126,7 +131,7 @@ impl BuildOptimiser {
             steps: self.steps,
             // An inner loop always has at least one step, which also ensures the number of loops
             // can be found without dividing by zero.
-            inner_steps: u64::max(u64::min(self.inner_steps, self.steps), 1),
+            inner_steps,
             seed,
             convergence: self.convergence,
         }
